@@ -34,6 +34,9 @@ def run(ctx):
         "each event is atomic: it sits inside the critical section of wlock / rlock / connGroup.mutex, or in the single goroutine that owns a pooled connection",
     ]
     broken = []
+    ok, log = ctx.extract("muxfacts", ["lean/KafkaVerif/Gen/MuxFacts.lean"])
+    if not ok:
+        broken.append({"kind": "obligation", "name": "translator go/extract muxfacts", "detail": log[-1500:]})
     res = ctx.prove(MODULE)
     if not res["ok"]:
         broken.append({"kind": "obligation", "theorems": res["failed"], "detail": res["reasons"][:10]})
